@@ -310,6 +310,7 @@ def scenarios(files, names):
         {"id": "haplotagphase", "cmd": "haplotagphase", "names": names, "args": {"vcf": files["A_unphased_gz"], "bam": files["A_tagged"], "fasta": a["fasta"]}},
         {"id": "compare-multiway", "cmd": "compare", "names": names, "args": {"vcfs": files["cmp"], "kw": {"ignore_sample_name": True}}},
         {"id": "stats", "cmd": "stats", "names": names, "args": {"vcf": files["A_phased"]}},
+        {"id": "stats-indexed-chromosomes", "cmd": "stats", "names": chroms, "args": {"vcf": files["A_phased_gz"], "kw": {"chromosomes": ["chr2", "chr1"]}}},
         {"id": "split", "cmd": "split", "names": names, "args": {"bam": files["A_unaligned"], "list": files["A_list"]}},
         {"id": "split-largest-block-tie", "cmd": "split", "names": ["100", "200", "300"], "args": {"bam": files["A_unaligned"], "list": files["A_tie_list"], "kw": {"only_largest_block": True}}},
         {"id": "find-snv-candidates", "cmd": "find_snv", "names": names, "chroms": chroms, "args": {"bam": a["bam"], "fasta": a["fasta"], "kw": {"minabs": 1, "minrel": 0.1, "multi_allelics": True}}},
